@@ -859,6 +859,47 @@ def sched_cases(jobs):
     return out
 
 
+def sched_count_cases(jobs):
+    """C20 with two threads racing the first call: job = {id, world, a_calls:[...], b_call, after:[...]}.
+    Thread A makes the first call and then warms every combination; thread B makes its first call while A is
+    building (every hook-level pre-emption of A's build).  Afterwards every combination is called again and the
+    user hooks consulted during each of those calls are counted."""
+    from . import buildrt
+
+    out = []
+    for job in jobs:
+        try:
+            sc = buildrt.Scenario(job["world"], threaded=True)
+            ids = [m["id"] for m in sorted(job["world"]["methods"], key=lambda m: m["reg"]) if not m.get("late")]
+            ov = sc.new_function()
+            _, counts, _, _, _ = buildrt.run_schedule(sc, ov, {"A": job["a_calls"][0]}, [], "hook")
+            total = counts["A"]
+            for k in range(0, total + 1):
+                ov = sc.new_function()
+                res, _, _, stuck, _ = buildrt.run_schedule(sc, ov, {"A": list(job["a_calls"]), "B": job["b_call"]}, [k] if k else [], "hook")
+                steps = [{"op": "register", "m": mid} for mid in ids]
+
+                def rec(call, obs, counts):
+                    fresh = sc.new_function()
+                    return {"op": "call", "call": call, "obs": obs, "fresh": sc.call(fresh, call), "fresh_methods": ids, "counts": counts}
+
+                zero = {"user": 0, "tm_miss": 0, "mtm_miss": 0, "plain_miss": 0}
+                ra = res["A"] if isinstance(res["A"], list) else [res["A"]]
+                for c, o in zip(job["a_calls"], ra):
+                    steps.append(rec(c, o, zero))
+                steps.append(rec(job["b_call"], res["B"], zero))
+                for c in job["after"]:
+                    u0 = sum(sc.ns.get("COUNTS", {}).values())
+                    o = sc.call(ov, c)
+                    u1 = sum(sc.ns.get("COUNTS", {}).values())
+                    steps.append(rec(c, o, {"user": u1 - u0, "tm_miss": 0, "mtm_miss": 0, "plain_miss": 0}))
+                out.append({"id": f"{job['id']}@{k}", "props": ["C20"], "world": job["world"], "steps": steps, "stuck": stuck, "switch": k})
+            sc.bw.cleanup()
+        except Exception:
+            out.append({"id": job["id"], "skip": "harness: " + traceback.format_exc()[-700:]})
+    return out
+
+
 def build_trace_cases(jobs):
     """Executions of the lazy build recorded as event traces for Trace_Build.tla.
     job = {id, world, threads:{A: call, B: call}, granularity, switches ('sweep1' | 'sweepab' | [[..]]),
